@@ -10,6 +10,7 @@ import (
 	"strings"
 
 	"golang.org/x/tools/go/ssa"
+	"golang.org/x/tools/go/ssa/ssautil"
 )
 
 type FuncResult struct {
@@ -102,7 +103,9 @@ func (p *Program) verifyFunc(fn *ssa.Function, ct *Contract, sweepOnly bool) (re
 	if ct != nil {
 		ex.applyUnfolds(fr, st, ct)
 		for _, u := range ct.Uses {
-			ex.assume(st, ex.specBool(fr, st, u))
+			if g, ok := ex.trySpecBool(fr, st, u); ok {
+				ex.assume(st, g)
+			}
 		}
 	}
 	// vacuity guard: precondition satisfiable
@@ -113,6 +116,25 @@ func (p *Program) verifyFunc(fn *ssa.Function, ct *Contract, sweepOnly bool) (re
 	ex.run(fr, st.clone())
 	// returns
 	sort.SliceStable(fr.rets, func(i, j int) bool { return fr.rets[i].pos < fr.rets[j].pos })
+	if ct != nil && len(fr.rets)*(len(ct.Ensures)+1) > 48 && len(fr.rets) > 1 {
+		// many exits: check each postcondition once over the joined exit state
+		var ins []edgeState
+		for _, r := range fr.rets {
+			ins = append(ins, edgeState{nil, r.st})
+		}
+		merged := ex.mergeStates(ins).clone()
+		var vals []Value
+		for i := range fr.rets[0].vals {
+			var vs []Value
+			var gs []string
+			for _, r := range fr.rets {
+				vs = append(vs, r.vals[i])
+				gs = append(gs, r.st.pc)
+			}
+			vals = append(vals, ex.mergeValues(vs, gs, fmt.Sprintf("ret%d", i)))
+		}
+		fr.rets = []retInfo{{st: merged, vals: vals, pos: fn.Pos()}}
+	}
 	for i, r := range fr.rets {
 		ex.checkReturn(fr, ct, r, i+1)
 	}
@@ -120,6 +142,20 @@ func (p *Program) verifyFunc(fn *ssa.Function, ct *Contract, sweepOnly bool) (re
 		res.Err = fmt.Errorf("function has no return path but has postconditions")
 	}
 	return res
+}
+
+// trySpecBool evaluates a clause; clauses that mention locals not live at this point are skipped.
+func (ex *Exec) trySpecBool(fr *Frame, st *State, c *Clause) (g string, ok bool) {
+	defer func() {
+		if r := recover(); r != nil {
+			if se, isSpec := r.(specErr); isSpec && (strings.Contains(se.msg, "not live") || strings.Contains(se.msg, "unknown identifier")) {
+				ok = false
+				return
+			}
+			panic(r)
+		}
+	}()
+	return ex.specBool(fr, st, c), true
 }
 
 func (ex *Exec) applyUnfolds(fr *Frame, st *State, ct *Contract) {
@@ -154,7 +190,9 @@ func (ex *Exec) checkReturn(fr *Frame, ct *Contract, r retInfo, ord int) {
 	st = st.clone()
 	ex.applyUnfolds(fr, st, ct)
 	for _, u := range ct.Uses {
-		ex.assume(st, ex.specBool(fr, st, u))
+		if g, ok := ex.trySpecBool(fr, st, u); ok {
+			ex.assume(st, g)
+		}
 	}
 	for _, e := range ct.Ensures {
 		if e.Behav != "" {
@@ -321,11 +359,20 @@ func (p *Program) verifyLemma(lm *Lemma) (res *FuncResult) {
 	}
 	// induction hypotheses: the lemma for structurally smaller arguments
 	for _, ind := range lm.Induct {
-		// "induct x.left" replaces the first parameter by the given expression
-		arg := env.evalTerm(ind, nil)
+		// "induct name(args...)": the lemma itself at other arguments, usable only where the declared
+		// measure is non-negative and strictly smaller (well-founded induction).
+		call, ok := ind.(ECall)
+		if !ok || lm.Decr == nil || len(call.Args) != len(lm.Params) {
+			sfail("lemma %s: 'induct' needs a self-application and a 'decreases' measure", lm.Name)
+		}
 		n := env.sub()
-		n.vars[lm.Params[0].Name] = arg
-		ex.assume(st, n.evalTerm(lm.Body, types.Typ[types.Bool]).S)
+		for i, p := range lm.Params {
+			n.vars[p.Name] = env.evalTerm(call.Args[i], env.resolveType(p.Type))
+		}
+		m0 := env.evalTerm(lm.Decr, nil)
+		m1 := n.evalTerm(lm.Decr, nil)
+		guard := sAnd(sx("<=", "0", m1.S), sx("<", m1.S, m0.S))
+		ex.assume(st, sImp(guard, n.evalTerm(lm.Body, types.Typ[types.Bool]).S))
 	}
 	for _, u := range lm.Unfold {
 		ex.assume(st, env.unfoldSpec(u))
@@ -349,7 +396,22 @@ func (p *Program) findFunction(ct *Contract) *ssa.Function {
 		return nil
 	}
 	if ct.Recv == "" {
-		return pk.Func(ct.Name)
+		f := pk.Func(ct.Name)
+		if f != nil && f.TypeParams().Len() > 0 {
+			// generic: verify its (first) instantiation; every instantiation found is reported
+			var insts []*ssa.Function
+			for g := range ssautil.AllFunctions(p.ssaProg) {
+				if g.Origin() == f && len(g.Blocks) > 0 {
+					insts = append(insts, g)
+				}
+			}
+			sort.Slice(insts, func(i, j int) bool { return insts[i].Name() < insts[j].Name() })
+			if len(insts) == 0 {
+				return nil
+			}
+			return insts[0]
+		}
+		return f
 	}
 	tn, ok := pk.Pkg.Scope().Lookup(ct.Recv).(*types.TypeName)
 	if !ok {
